@@ -100,13 +100,13 @@ def impl(case):
         from click.testing import CliRunner
         from haptools.__main__ import main
 
-        args = ["simgenotype", "--model", str(d / "model.dat"), "--mapdir", str(d / "maps"), "--chroms", ",".join(chroms), "--popsize", str(case["popsize"]), "--seed", str(case["seed"] % 2**32), "--only_breakpoint", "--out", str(out) + (".vcf", ".vcf.gz", ".bcf", ".pgen")[case["seed"] % 4], "--ref_vcf", "x.vcf", "--sample_info", "x.tab"]
+        args = ["simgenotype", "--model", str(d / "model.dat"), "--mapdir", str(d / "maps"), "--chroms", ",".join(chroms), "--popsize", str(case["popsize"]), "--seed", str(case["seed"] % 2**32), "--only_breakpoint", "--out", (cli_out := str(out) + (".vcf", ".vcf.gz", ".bcf", ".pgen")[case["seed"] % 4]), "--ref_vcf", "x.vcf", "--sample_info", "x.tab"]
         if case["region"]:
             args += ["--region", f"{case['region']['chr']}:{case['region']['start']}-{case['region']['end']}"]
         r = CliRunner().invoke(main, args, catch_exceptions=True)
         if r.exit_code != 0:
             return {"error": "cli_exit", "msg": (str(r.exception) or r.output)[-200:]}
-        bp_path = str(out) + ".bp"
+        bp_path = C.model_bp_prefix(cli_out) + ".bp"  # the place the Lean model of the --out handling names (OutPrefix.bpPrefix)
     elif case.get("plain_api"):
         try:
             ns, pd, bps = sg.simulate_gt(str(d / "model.dat"), str(d / "maps"), chroms, case["region"], case["popsize"], SD.silent_log(), case["seed"])
@@ -280,11 +280,11 @@ def describe(case, obs):
 CHECK = Check(
     id="C02",
     title="Breakpoint output tiles every simulated chromosome and respects the model",
-    theorems=["C02.simulate_tiles", "C02.haplotype_wellformed", "C02.labels_from_parents", "C02.every_haplotype_tiles", "C02.cm_never_decreases", "C02.labels_are_sources", "C02.write_framing", "C02.bp_reader_accepts"],
+    theorems=["C02.simulate_tiles", "C02.haplotype_wellformed", "C02.labels_from_parents", "C02.every_haplotype_tiles", "C02.cm_never_decreases", "C02.labels_are_sources", "C02.write_framing", "C02.bp_reader_accepts", "C19.breakpoints_prefix_of_out"],
     sections=[
         Section(
             name="bp_output",
-            theorems=["C02.simulate_tiles", "C02.haplotype_wellformed", "C02.labels_from_parents", "C02.every_haplotype_tiles", "C02.cm_never_decreases", "C02.labels_are_sources", "C02.write_framing", "C02.bp_reader_accepts"],
+            theorems=["C02.simulate_tiles", "C02.haplotype_wellformed", "C02.labels_from_parents", "C02.every_haplotype_tiles", "C02.cm_never_decreases", "C02.labels_are_sources", "C02.write_framing", "C02.bp_reader_accepts", "C19.breakpoints_prefix_of_out"],
             gen=gen,
             impl=impl,
             model_req=model_req,
